@@ -147,15 +147,23 @@ def run(ctx) -> Report:
     # ordering
     tp = prog.get_class(f"{MOD}.TensorProductCell")
     universe = dict(cells)
-    for a, b in (("interval", "interval"), ("triangle", "interval"), ("quadrilateral", "interval"), ("interval", "triangle")):
-        universe[f"{a}*{b}"] = ip.instantiate(tp, [cells[a], cells[b]], {})
-    # one-factor products (same cellname and dimension as the factor, but a different cell), a three-factor product
+    # every product of 1..3 factors with total dimension <= 3 (vertex factors included: factor lists that are proper
+    # prefixes of one another, same dimension and cellname-free hash data of different lengths)
+    tdims = {a: attr(cells[a], "topological_dimension") for a in cells}
+    alphabet = [a for a in ("vertex", "interval", "triangle", "quadrilateral") if a in cells]
+    if ctx.thorough():
+        alphabet += [a for a in ("tetrahedron", "hexahedron", "prism") if a in cells]
     for a in cells:
         try:
             universe[f"tp({a})"] = ip.instantiate(tp, [cells[a]], {})
         except LiftRaise:
             pass
-    universe["interval*interval*interval"] = ip.instantiate(tp, [cells["interval"], cells["interval"], cells["interval"]], {})
+    for n in (2, 3):
+        for fs in itertools.product(alphabet, repeat=n):
+            if sum(tdims[f] for f in fs) <= 3:
+                universe["*".join(fs)] = ip.instantiate(tp, [cells[f] for f in fs], {})
+    if len(universe) < 50:
+        raise AnalysisError(f"cell order universe has only {len(universe)} cells")
     names = list(universe)
 
     def lt(a, b):
